@@ -335,6 +335,14 @@ func (m *Metadata) Validate(data map[string]any, currentVersion ...string) Valid
 			// and we need to specify the group as rules, so we make a new map
 			if arr, ok := v.([]any); ok {
 				for i, a := range arr {
+					if _, isMap := a.(map[string]any); !isMap {
+						// e.g. an empty list item: it would decode to a nil pointer
+						results = append(results, ValidationResult{
+							Message:  fmt.Sprintf("field %s[%d] must be an object", k, i),
+							Severity: Error,
+						})
+						continue
+					}
 					subname := strings.Split(k, ".")[1]
 					rulesmap := map[string]any{subname: a}
 					subresults := m.Validate(rulesmap, currentVersion...)
